@@ -223,3 +223,26 @@ def jobs_X0(ctx):
 LEMMAS['X0'] = dict(jobs=jobs_X0, run=run_X0, units=['jit'], functions=['engine/x86sem.py (the model)', 'JitCompilerX86::generateCode (source of the byte sequences)'],
     doc='validation of the trusted x86 model: code emitted for concrete instruction words runs on the host CPU and in x86sem (concrete mode) from the same random state; registers, MXCSR and scratchpad agree',
     bound='29 instruction kinds x 5 register pairs x 3 random states (quick) / 64 pairs x 5', symbolic='(none: concrete differential test of the model)', stubs=[])
+
+# ------------------------------------------------------------------------------------------------ X1: whole program function, host CPU vs model
+def run_X1(ctx, case):
+    """the real JIT (native build of the current tree) compiles a random program; its program function runs on the host CPU and in x86sem (concrete
+    mode) from the same state: exercises prologue, loop templates, dataset read, every emitted fragment, hardware-AES store (v2), epilogue"""
+    from engine import x86native, nreplay
+    from lemmas import life
+    q = Q(10); F = life.flagvals()
+    shim = nreplay.load_shim(ctx['shim'])
+    flags_of = lambda v2: (F['V2'] if v2 else 0) | F['HARD_AES'] | F['JIT'] | F['FULL_MEM']
+    diffs, nlines = x86native.program_compare(shim, case['seed'] + 1000 * ctx.get('seed', 0), case['v2'], case['iters'], flags_of)
+    q.n += 1; q.unsat += (not diffs); q.sat += bool(diffs)
+    r = result('X1', 'program seed %d %s %d iterations' % (case['seed'], 'v2' if case['v2'] else 'v1', case['iters']), q, paths=1, detail='register file and scratchpad agree after %d iterations (%d dataset lines read)' % (case['iters'], nlines))
+    if diffs: r['status'] = 'error'; r['error'] = 'x86 model validation failed (engine defect, not a property violation): ' + str(diffs[:3])[:400]
+    return r
+
+def jobs_X1(ctx):
+    n = 4 if ctx['tier'] == 'quick' else 24
+    return [dict(seed=k, v2=bool(v), iters=16 if ctx['tier'] == 'quick' else 64) for k in range(n) for v in (0, 1)]
+
+LEMMAS['X1'] = dict(jobs=jobs_X1, run=run_X1, units=[], native=True, functions=['engine/x86sem.py (the model)', 'JitCompilerX86::generateProgram (native, source of the code)'],
+    doc='validation of the trusted x86 model on whole program functions: the natively compiled program runs on the host CPU and in x86sem (concrete mode); register file and scratchpad agree',
+    bound='4 random programs x {v1,v2} x 16 iterations (quick) / 24 x 2 x 64 (thorough); full mode, hardware AES', symbolic='(none: concrete differential test of the model)', stubs=[])
